@@ -1,4 +1,5 @@
 import GateryModel.C15.Lemmas
+import GateryModel.C15.Gray
 /-!
 # C15 — property theorems: the library FIFO is a loss-free, duplicate-free, order-preserving queue
 
@@ -192,6 +193,19 @@ theorem chosen_latency_bounds (r : LatReq) (l : Nat) :
   · intro h h1 h2
     cases r <;> simp [chosenLatency, LatReq.resolve] at h h1 h2 <;> omega
 
+/-- **Gray-code crossing is lossless, every width**: the bit-serial `grayDecode` (cdc.cpp:30-36) undoes
+`grayEncode = val ^ (val >> 1)` (cdc.cpp:25) on bit vectors of any length — so the pointer that leaves
+`synchronizeGrayCode` is the pointer that entered it, which is what `Model.lean` assumes for the dual-clock chains. -/
+theorem gray_roundtrip (v : Gray.Bits) : Gray.grayDecode (Gray.grayEncode v) = v := by
+  rw [Gray.grayEncode_eq]; exact Gray.decode_encode_from false v
+
+/-- … and `grayEncode` undoes `grayDecode` (both are bijections of the `w`-bit vectors), widths preserved. -/
+theorem gray_roundtrip_inv (v : Gray.Bits) :
+    Gray.grayEncode (Gray.grayDecode v) = v ∧ (Gray.grayEncode v).length = v.length ∧ (Gray.grayDecode v).length = v.length := by
+  refine ⟨?_, ?_, Gray.length_decodeFrom false v⟩
+  · rw [Gray.grayEncode_eq]; exact Gray.encode_decode_from false v
+  · rw [Gray.grayEncode_eq]; exact Gray.length_encodeFrom false v
+
 /-! ### non-vacuity -/
 
 private def ev (pc qc push : Bool) (d : Nat) (pop : Bool) : Ev Nat :=
@@ -221,5 +235,11 @@ example : yielded (trace ⟨1, 4, 4⟩ (init ⟨1, 4, 4⟩ 0) demoDual) = [5] :=
 example : StaleRun ⟨1, 2, 2⟩ (ainit ⟨1, 2, 2⟩ 0)
     [(ev true false true 5 false, 0, 0), (ev false true false 0 true, 0, 1), (ev false true false 0 true, 0, 1)] := by
   refine ⟨⟨rfl, rfl⟩, ⟨?_, ?_, ?_, ?_⟩, ⟨rfl, rfl⟩, ⟨?_, ?_, ?_, ?_⟩, ⟨rfl, rfl⟩, ⟨?_, ?_, ?_, ?_⟩, trivial⟩ <;> decide
+
+-- 9-bit pointer value 256 (the first one a three-stage prefix decoder gets wrong): encode, decode
+example : Gray.grayEncode [true, false, false, false, false, false, false, false, false] =
+          [true, true, false, false, false, false, false, false, false] ∧
+          Gray.grayDecode [true, true, false, false, false, false, false, false, false] =
+          [true, false, false, false, false, false, false, false, false] := by decide
 
 end Gatery.C15.Props
